@@ -73,6 +73,53 @@ def loadStore (rows : List RRow) (d : Dir) (mem : Operand) (r : RegV) (t : TypeI
   | .load => deduce rows mem (.reg r) t.size r.size t.info
   | .store => deduce rows (.reg r) mem r.size t.size t.info
 
+/-! ## Behaviour table -/
+
+/-- one measured outcome of the real `Context.Load` (dir 0) / `Context.Store`
+(dir 1): go/types flags and gc/amd64 size of the component's basic type, kind,
+size and byte-lane mask of the register, kind of the address's base register
+(0: the FP pseudo register, 1: general purpose), and what happened (`none`: an
+error was recorded and no instruction added; `some opcode`) -/
+structure TabRow where
+  rkind : Nat
+  rsize : Nat
+  rmask : Nat
+  mbase : Nat
+  outcome : Option Nat
+  deriving DecidableEq, Repr, Inhabited
+
+/-- the outcomes for one (direction, type): grouping keeps look-ups short -/
+structure TabGroup where
+  dir : Nat
+  tinfo : Nat
+  tsize : Nat
+  rows : List TabRow
+  deriving DecidableEq, Repr, Inhabited
+
+def dirIdx : Dir → Nat
+  | .load => 0
+  | .store => 1
+
+/-- high-byte registers (AH, BH, CH, DH and their virtual counterparts) -/
+def isHigh (kind mask : Nat) : Bool := kind == kindGP && mask == 2
+
+/-- 0: based on the FP pseudo register; 1: on a general-purpose register; 2: anything else -/
+def memBase : Operand → Nat
+  | .mem (some b) none _ _ _ => if b.kind == kindPseudo then 0 else if b.kind == kindGP then 1 else 2
+  | _ => 2
+
+def TabGroup.keyOf (g : TabGroup) (d : Dir) (t : TypeInfo) : Bool :=
+  g.dir == dirIdx d && (g.tinfo == t.info && g.tsize == t.size)
+
+def TabRow.keyOf (e : TabRow) (r : RegV) (m : Operand) : Bool :=
+  e.rkind == r.kind && (e.rsize == r.size && (isHigh e.rkind e.rmask == isHigh r.kind r.mask && e.mbase == memBase m))
+
+/-- what the implementation did at the class of this input (`none`: not tabulated) -/
+def behave (tab : List TabGroup) (d : Dir) (t : TypeInfo) (r : RegV) (m : Operand) : Option (Option Nat) :=
+  match tab.find? (fun g => g.keyOf d t) with
+  | none => none
+  | some g => (g.rows.find? (fun e => e.keyOf r m)).map (·.outcome)
+
 /-! ## What the selected instructions do -/
 
 inductive Ext where
@@ -176,22 +223,104 @@ def semOK (F : Flags) (d : Dir) (t : TypeInfo) (r : RegV) (s : Sem) : Bool :=
        else false)
     else true
 
-/-- **Where a move must exist** (so that an error is not an acceptable answer):
-integers and booleans load into every general-purpose register at least as
-wide as the component and store from a general-purpose register of exactly the
-component's width; floats move to and from XMM registers. -/
-def mustMove (F : Flags) (d : Dir) (t : TypeInfo) (r : RegV) : Bool :=
-  ((has t.info F.isInteger || has t.info F.isBoolean) && r.kind == kindGP &&
+/-- integers, booleans and pointers: the values Go keeps in integer registers.
+`unsafe.Pointer` is the only basic type a component resolves to whose go/types
+`Info()` has no flag at all (`Invalid` never resolves). -/
+def isPointer (t : TypeInfo) : Bool := t.info == 0
+def isWordLike (F : Flags) (t : TypeInfo) : Bool :=
+  has t.info F.isInteger || has t.info F.isBoolean || isPointer t
+
+/-- **Class table.** The component widths for which the x86 instruction set has
+a two-operand move between memory and a register of the given class that puts
+the value into the register's low bytes (loads) / writes exactly that many
+bytes (stores):
+* general purpose, `n` bytes: loads of 1, 2, 4, 8 bytes up to `n` (`MOV`,
+  `MOVZX`, `MOVSX`, `MOVSXD`); stores of exactly `n` bytes (`MOV`);
+* mask (64 bits): 1, 2, 4, 8 bytes (`KMOVB/W/D/Q`, zero-extending);
+* XMM: 4 and 8 bytes (`MOVD`/`MOVQ`, `MOVSS`/`MOVSD` and their VEX forms; 16
+  bytes too, but no scalar component is that wide);
+* YMM, ZMM: none (scalar moves take XMM operands only; the full-width moves
+  are 32 / 64 bytes wide). -/
+def moveWidths (d : Dir) (r : RegV) : List Nat :=
+  if r.kind == kindGP then
     (match d with
-     | .load => decide (t.size ≤ r.size)
-     | .store => t.size == r.size)) ||
-  (has t.info F.isFloat && r.kind == kindVector && r.size == 16)
+     | .load => [1, 2, 4, 8].filter (fun w => decide (w ≤ r.size))
+     | .store => [r.size])
+  else if r.kind == kindOpmask then [1, 2, 4, 8]
+  else if r.kind == kindVector && r.size == 16 then [4, 8]
+  else []
+
+/-- which register files hold a Go value of the type: floats live in vector
+registers only (Go has no bit-exact conversion of a float to an integer
+register; `math.Float32bits` is a function), integers, booleans and pointers
+may be put into general-purpose, mask and vector registers -/
+def classFits (F : Flags) (t : TypeInfo) (r : RegV) : Bool :=
+  if has t.info F.isFloat then r.kind == kindVector else isWordLike F t
+
+/-- **Where a move must exist** (so that an error is NOT an acceptable answer):
+the type's values fit the register class and the class table has a move of
+exactly the component's width.  Everywhere else no x86 instruction moves
+exactly the component's bytes, and an error is the right answer. -/
+def mustMove (F : Flags) (d : Dir) (t : TypeInfo) (r : RegV) : Bool :=
+  classFits F t r && (moveWidths d r).contains t.size
 
 /-- verdict on a selected opcode -/
 def opcodeOK (F : Flags) (d : Dir) (t : TypeInfo) (r : RegV) (opc : Nat) : Bool :=
   match movSem opc r with
   | none => false
   | some s => semOK F d t r s
+
+/-- **Acceptor for one outcome of `Load`/`Store`** (`none` = an error was
+recorded and no instruction added): an error only where no move exists; a
+selected opcode must move exactly the component's bytes with Go's rule. -/
+def acceptSel (F : Flags) (d : Dir) (t : TypeInfo) (r : RegV) (o : Option Nat) : Bool :=
+  match o with
+  | none => !mustMove F d t r
+  | some opc => opcodeOK F d t r opc
+
+/-- **The property for one outcome, declaratively.** -/
+def SelOK (F : Flags) (d : Dir) (t : TypeInfo) (r : RegV) : Option Nat → Prop
+  | none => ¬ (classFits F t r = true ∧ t.size ∈ moveWidths d r)
+  | some opc => ∃ s, movSem opc r = some s ∧ s.memWidth = t.size ∧
+      (d = .load → r.kind = kindGP → s.regBytes = r.size ∧
+        (t.size ≠ r.size →
+          (isSigned F t = true ∧ s.ext = .sign) ∨
+          (isSigned F t = false ∧ isZeroExt F t = true ∧ s.ext = .zero)))
+
+/-! ## Acceptors on what the CPU did (byte images) -/
+
+def leNat (bs : List Nat) : Nat := bs.foldr (fun b acc => acc * 256 + b) 0
+
+def leBytes (n k : Nat) : List Nat := (List.range k).map (fun i => (n >>> (8 * i)) % 256)
+
+/-- sign- or zero-extension of the `w`-byte little-endian value `v` to `k` bytes -/
+def extend (e : Ext) (v w k : Nat) : Nat :=
+  match e with
+  | .sign => if w > 0 && (v >>> (8 * w - 1)) % 2 == 1 then v + ((2 ^ (8 * k) - 1) - (2 ^ (8 * w) - 1)) else v
+  | _ => v
+
+/-- Go's conversion of a component of type `t` (raw value `v`, `t.size` bytes)
+to the width `k` of a general-purpose register -/
+def goConvert (F : Flags) (t : TypeInfo) (v k : Nat) : Nat :=
+  if isSigned F t then extend .sign v t.size k else v
+
+/-- a store of a `ts`-byte component at offset `off` of a memory image: the
+component's bytes are the register's low bytes, every other byte is unchanged -/
+def acceptStoreBytes (ts off : Nat) (src before after : List Nat) : Bool :=
+  after.length == before.length && ((after.drop off).take ts == src.take ts &&
+    (after.take off == before.take off && after.drop (off + ts) == before.drop (off + ts)))
+
+/-- a load into a general-purpose register of `rsize` bytes whose value starts
+at byte `roff` of the register image: the register holds Go's conversion and
+depends on exactly the component's bytes `[off, off+ts)` of memory -/
+def acceptLoadGP (F : Flags) (t : TypeInfo) (rsize roff off : Nat) (v reg : List Nat) (lo hi cnt : Nat) : Bool :=
+  lo == off && (hi == off + t.size && (cnt == t.size &&
+    (reg.drop roff).take rsize == leBytes (goConvert F t (leNat v) rsize) rsize))
+
+/-- a load into a vector or mask register: the component in the low bytes,
+dependence on exactly the component's bytes -/
+def acceptLoadLow (ts off : Nat) (v reg : List Nat) (lo hi cnt : Nat) : Bool :=
+  lo == off && (hi == off + ts && (cnt == ts && reg.take ts == v))
 
 /-! ## Representatives of the reachable inputs -/
 
